@@ -396,6 +396,17 @@ fn gen_parse(thorough: bool, r: &mut Rng, emit: Emit) {
         b"3:@:".to_vec(), b"3::@".to_vec(), b"x".to_vec(), b"3:\xff:".to_vec(),
     ];
     for t in &fixed { for ty in TYPES { emit(&format!("parse {} {}", ty, hexenc(t))); } }
+    // every byte value as a character of block hash 1, of block hash 2 and of the block size field (the
+    // neighbours of the Base64 ranges — '@' '[' '`' '{' '.' '=' '-' '_' — are where an arithmetic
+    // decoder slips: round-12 seeded change), for every type
+    for b in 0..=255u8 {
+        for (i, ty) in TYPES.iter().enumerate() {
+            if !thorough && (b as usize + i) % 2 == 1 && !(b'+'..=b'{').contains(&b) { continue; }
+            emit(&format!("parse {} {}", ty, hexenc(&[b"3:A", &[b][..], b"B:C"].concat())));
+            emit(&format!("parse {} {}", ty, hexenc(&[b"3:A:B", &[b][..], b"C"].concat())));
+            if i < 2 { emit(&format!("parse {} {}", ty, hexenc(&[b"1", &[b][..], b"2:A:B"].concat()))); }
+        }
+    }
     // very long runs of one symbol (counters narrower than usize: 255 / 256 / 257, 65535 / 65536 / 65537),
     // alone, after a prefix, in either block hash
     for l in [250usize, 254, 255, 256, 257, 258, 259, 260, 300, 511, 512, 513, 1000, 65535, 65536, 65537, 65540] {
